@@ -9,6 +9,15 @@ thread_local! {
     static LAST: RefCell<String> = const { RefCell::new(String::new()) };
 }
 static INIT: Once = Once::new();
+/// (property id, verif root) of the running check: an UNCAUGHT panic raised inside the code under
+/// test (location under /repo/) while the harness observes it is reported as a violation of the
+/// property being decided, with the panic as the artefact; an uncaught panic anywhere else is a
+/// machinery failure (default hook, non-zero non-one exit).
+static SUBJECT: std::sync::Mutex<Option<(String, String)>> = std::sync::Mutex::new(None);
+
+pub fn set_subject(prop: &str, root: &str) {
+    *SUBJECT.lock().unwrap() = Some((prop.to_string(), root.to_string()));
+}
 
 pub fn install() {
     INIT.call_once(|| {
@@ -24,6 +33,23 @@ pub fn install() {
             let loc = info.location().map(|l| format!(" at {}:{}", l.file(), l.line())).unwrap_or_default();
             LAST.with(|l| *l.borrow_mut() = format!("{}{}", msg, loc));
             if QUIET.with(|q| q.get()) == 0 {
+                let in_subject = info.location().map(|l| l.file().starts_with("/repo/") || l.file().contains("/pdatastructs")).unwrap_or(false);
+                if in_subject {
+                    if let Ok(g) = SUBJECT.lock() {
+                        if let Some((prop, root)) = g.as_ref() {
+                            let dir = format!("{}/replays/{}", root, prop);
+                            let _ = std::fs::create_dir_all(&dir);
+                            let path = format!("{}/uncaught-panic.json", dir);
+                            let bt = std::backtrace::Backtrace::force_capture().to_string();
+                            let frames: Vec<&str> = bt.lines().filter(|l| l.contains("pdatastructs") || l.contains("checks::") || l.contains("/repo/")).take(24).collect();
+                            let body = format!("{{\n  \"property\": \"{}\",\n  \"signature\": \"uncaught panic in the code under test\",\n  \"message\": {:?},\n  \"backtrace\": {:?}\n}}\n", prop, format!("{}{}", msg, loc), frames);
+                            let _ = std::fs::write(&path, body);
+                            eprintln!("violation [uncaught panic in the code under test] {}{}", msg, loc);
+                            println!("VIOLATION property={} replay={}", prop, path);
+                            std::process::exit(1);
+                        }
+                    }
+                }
                 prev(info);
             }
         }));
